@@ -72,6 +72,9 @@ TNext ==
          [] e.k = "starved" ->
               /\ (inop[e.t] \in Readers /\ hold[e.t] = 0) => Viol("C14: a reader cannot complete its acquisition while the other threads are suspended")
               /\ UNCHANGED mv
+         [] e.k = "soloyield" ->
+              /\ (inop[e.t] \in Readers /\ hold[e.t] = 0) => Viol("C14: a reader spins waiting for a writer while acquiring")
+              /\ UNCHANGED mv
          [] e.k = "blocked" -> blk' = blk \cup {e.t} /\ UNCHANGED <<wopen, hold, inop, need, last, retmax, applied, ndone>>
          [] e.k \in {"deadlock", "budget"} ->
               /\ ((\E t \in 1..MaxT : inop[t] = "modify") /\ (\A u \in 1..MaxT : hold[u] = 0 /\ inop[u] \notin Readers))
